@@ -29,6 +29,12 @@ fn main() {
             _ => { i += 1; }
         }
     }
+    // C04 sensors (hooks in steel-core, cfg(steel_verif)): force a full collection every n-th heap
+    // allocation, and treat any program access to a reclaimed heap slot as a failure of the case
+    if let Ok(n) = std::env::var("VERIF_GC_EVERY") {
+        steel::verif::GC_EVERY.store(n.parse().unwrap_or(0), Ordering::SeqCst);
+    }
+    let check_use_free = std::env::var("VERIF_USE_FREE_CHECK").is_ok();
     let text = std::fs::read_to_string(cases_path).expect("cases file");
     let out = Arc::new(Mutex::new(
         std::fs::OpenOptions::new().create(true).append(true).open(out_path).expect("out file"),
@@ -73,6 +79,7 @@ fn main() {
         let mut bad_step = 0usize;
         let mut poisoned = false;
         let mut unplanned = false;
+        let use_free0 = steel::verif::USE_FREE.load(Ordering::SeqCst);
         let mut host = HostState { uniq: uniq.clone(), ..Default::default() };
         for (si, st) in case.steps.iter().enumerate() {
             let src = st.src.replace("@@", &uniq);
@@ -94,6 +101,11 @@ fn main() {
         if poisoned && !case.fresh {
             // a panic may leave the shared engine in an arbitrary state; replace it
             shared = new_engine(&log);
+        }
+        let use_free = steel::verif::USE_FREE.load(Ordering::SeqCst) - use_free0;
+        if check_use_free && use_free > 0 && why.is_empty() {
+            why = format!("use-free: {use_free} program accesses to heap slots the collector had reclaimed");
+            bad_step = gots.len().saturating_sub(1);
         }
         // "|unplanned-recycle": the engine's global-slot recycler ran during a step that did not ask
         // for it (policy event caused by the accumulated history of a shared engine)
